@@ -6,7 +6,7 @@ use cosmwasm_std::{
 };
 use cw3::{ProposalResponse, Status, Vote, VoteListResponse, VoterResponse};
 use cw4::{Member, MemberResponse, TotalWeightResponse};
-use cw_multi_test::{Contract, ContractWrapper, Executor};
+use cw_multi_test::{Contract, Executor};
 use cw_utils::{Duration, Threshold, ThresholdResponse};
 use serde_json::{json, Value};
 
@@ -17,31 +17,19 @@ const OTHER: &str = "uother";
 fn fixed_code() -> Box<dyn Contract<Empty>> {
     Recorded::new(
         "cw3",
-        Box::new(ContractWrapper::new(
-            cw3_fixed_multisig::contract::execute,
-            cw3_fixed_multisig::contract::instantiate,
-            cw3_fixed_multisig::contract::query,
-        )),
+        crate::contract_code!(cw3_fixed_multisig, has_reply_cw3_fixed_multisig, has_sudo_cw3_fixed_multisig, has_migrate_cw3_fixed_multisig),
     )
 }
 fn flex_code() -> Box<dyn Contract<Empty>> {
     Recorded::new(
         "cw3",
-        Box::new(ContractWrapper::new(
-            cw3_flex_multisig::contract::execute,
-            cw3_flex_multisig::contract::instantiate,
-            cw3_flex_multisig::contract::query,
-        )),
+        crate::contract_code!(cw3_flex_multisig, has_reply_cw3_flex_multisig, has_sudo_cw3_flex_multisig, has_migrate_cw3_flex_multisig),
     )
 }
 fn group_code() -> Box<dyn Contract<Empty>> {
     Recorded::new(
         "group",
-        Box::new(ContractWrapper::new(
-            cw4_group::contract::execute,
-            cw4_group::contract::instantiate,
-            cw4_group::contract::query,
-        )),
+        crate::contract_code!(cw4_group, has_reply_cw4_group, has_sudo_cw4_group, has_migrate_cw4_group),
     )
 }
 
@@ -241,6 +229,11 @@ impl Run {
             return None;
         }
         let ms = w.addr("ms");
+        if flex && cfg.get("hooked").and_then(|x| x.as_bool()).unwrap_or(false) {
+            // the group notifies the multisig of every membership change (MemberChangedHook)
+            let m = cw4_group::msg::ExecuteMsg::AddHook { addr: ms.to_string() };
+            w.app.execute_contract(ga.clone(), group.clone().unwrap(), &m, &[]).unwrap();
+        }
         // a little money for harmless bank messages of proposals
         let a1 = w.addr("a1");
         w.app.send_tokens(a1, ms.clone(), &coins(5, OTHER)).unwrap();
@@ -597,6 +590,15 @@ impl Run {
                 self.step(&json!({"act":"close","by":"a3","args":{"id":p["id"],"drain":true}}), out);
             }
         }
+        // aftermath: a finished proposal stays finished — late ballots, a second Execute and a second Close must
+        // all be refused and move no money (at most three proposals, to keep the traces short)
+        for p in obs["props"].as_array().unwrap().iter().take(3) {
+            for u in USERS {
+                self.step(&json!({"act":"vote","by":u,"args":{"id":p["id"],"vote":"yes","drain":true}}), out);
+            }
+            self.step(&json!({"act":"execute","by":"a1","args":{"id":p["id"],"drain":true}}), out);
+            self.step(&json!({"act":"close","by":"a2","args":{"id":p["id"],"drain":true}}), out);
+        }
     }
 }
 
@@ -644,7 +646,7 @@ pub fn rand_cfg(rng: &mut Rng) -> Value {
             _ => json!({"kind":"cw20","amt":rng.range(1,4),"refund":rng.chance(2,3)}),
         }
     };
-    json!({"flavour": if flex {"flex"} else {"fixed"}, "voters":voters, "thr":rand_thr(rng, total), "pden":PDEN7, "period":period, "executor":executor, "dep":dep})
+    json!({"flavour": if flex {"flex"} else {"fixed"}, "voters":voters, "thr":rand_thr(rng, total), "pden":PDEN7, "period":period, "executor":executor, "dep":dep, "hooked": flex && rng.chance(1, 2)})
 }
 
 pub fn random_run(rng: &mut Rng, run_no: u64, len: usize, out: &mut Out) {
